@@ -184,6 +184,44 @@ def h_cards(ctx: Any, k: int) -> None:
     ctx.cover('done')
 
 
+def h_deal_forms(ctx: Any) -> None:
+    """the same card given to deal_hole / burn_card / deal_board as a card object, a tuple, a list or text."""
+    import warnings
+    from pokerkit.state import Automation
+    from pokerkit.utilities import Card, Rank, Suit
+    C.native_hands()
+    C.set_deck_order('identity')
+    warnings.simplefilter('ignore')
+    RANKS, SUITS = list(Rank), list(Suit)
+    card = Card(RANKS[ctx.choice('r', len(RANKS))], SUITS[ctx.choice('s', len(SUITS))])
+    form = ctx.choice('form', 4)
+    arg = [card, (card,), [card], repr(card)][form]
+    autos = tuple(a for a in Automation if a not in (Automation.HOLE_DEALING, Automation.BOARD_DEALING,
+                                                     Automation.CARD_BURNING))
+
+    def fresh() -> Any:
+        return C.make_state('NT', dict(n=2, stacks=(50, 50), blinds=(1, 2), min_bet=2, automations=autos))
+    ref, st = fresh(), fresh()
+    ref.deal_hole((card,))
+    C.call(ctx, st.deal_hole, arg)
+    ctx.check(st.hole_cards == ref.hole_cards and list(st.deck_cards) == list(ref.deck_cards), 'deal_hole-forms-differ',
+              lambda: f'{arg!r}: {st.hole_cards} vs {ref.hole_cards}')
+    for s_ in (ref, st):
+        while s_.can_deal_hole():
+            s_.deal_hole()
+        s_.check_or_call()
+        s_.check_or_call()
+    ref.burn_card((card,))
+    C.call(ctx, st.burn_card, arg)
+    ctx.check(st.burn_cards == ref.burn_cards and list(st.deck_cards) == list(ref.deck_cards), 'burn_card-forms-differ',
+              lambda: f'{arg!r}: {st.burn_cards} vs {ref.burn_cards}')
+    ref.deal_board((card,))
+    C.call(ctx, st.deal_board, arg)
+    ctx.check(st.board_cards == ref.board_cards and list(st.deck_cards) == list(ref.deck_cards), 'deal_board-forms-differ',
+              lambda: f'{arg!r}: {st.board_cards} vs {ref.board_cards}')
+    ctx.cover('done')
+
+
 def h_rawtext(ctx: Any, length: int) -> None:
     """arbitrary raw text: rejected with ValueError or equal to the card codes it spells."""
     from pokerkit.utilities import Card, Rank, Suit
@@ -292,6 +330,7 @@ def jobs(tier: str, seed: int) -> list[dict]:
     for L in (0, 1, 2):
         out.append(dict(name=f'rawtext/len{L}', fn='h_rawtext', params=dict(length=L), budget_s=B,
                         must_cover=['rejected'] if L == 1 else ['parsed']))
+    out.append(dict(name='deal-forms', fn='h_deal_forms', traced=False, params={}, budget_s=B, must_cover=['done']))
     out.append(dict(name='divmod', fn='h_divmod', params={}, budget_s=B, must_cover=['done']))
     out.append(dict(name='rake/smt', kind='native', fn='smt_rake', params={}, budget_s=B))
     out.append(dict(name='rake/translator-validation', kind='native', fn='smt_translator_validation',
@@ -377,12 +416,62 @@ def smt_rake(budget_s: float = 250, eb: int = 5, sb: int = 11) -> dict:
                     desc = f'rake[{capkind},nfnd={nfnd}] (B): parts do not add up / negative / over cap / bad percentage accepted'
                 r_ = check(s, desc)
                 if r_ == 'sat':
+                    m = s.model()
+                    av = m.eval(amount, model_completion=True).as_long()
+                    cv = m.eval(cap, model_completion=True).as_long()
+                    pv = _fp_to_float(m.eval(p, model_completion=True))
+                    rep = _replay_rake(av, pv, cv if capkind == 'int' else None, nfnd)
+                    if not rep['reproduced'] and it.rounds and av > 0:
+                        # the LIA part only knows 0 <= round(...) <= amount: realise the rounded value
+                        # the model chose by a percentage that produces it
+                        rv = m.eval(it.rounds[0][0], model_completion=True).as_long()
+                        rep = _replay_rake(av, min(1.0, max(0.0, rv / av)), cv if capkind == 'int' else None, nfnd)
+                    if rep['reproduced']:
+                        return dict(status='violation', kind='rake', detail=f'{desc}: {rep}', queries=queries,
+                                    sample_queries=samples, replay={'values': rep['inputs'], 'outcome': 'viol', 'trace': rep})
                     return dict(status='harness-error', queries=queries, sample_queries=samples,
-                                reason=f'model needs replay: {desc} {s.model()}')
+                                reason=f'model does not reproduce on the real rake: {desc} {rep}')
                 if r_ != 'unsat':
                     res = 'inconclusive'
     return dict(status=res, reason='all unsat' if res == 'confirmed' else 'unknown', queries=queries,
                 solver_s=round(time.time() - t0, 2), sample_queries=samples)
+
+
+def _fp_to_float(v: Any) -> float:
+    import z3
+    if z3.is_fp(v) and hasattr(v, 'as_string'):
+        try:
+            sign = -1.0 if v.sign() else 1.0
+            if v.isInf():
+                return sign * float('inf')
+            if v.isNaN():
+                return float('nan')
+            if v.isZero():
+                return 0.0 * sign
+            frac = v.significand_as_long()
+            e = v.exponent_as_long(False)
+            sb = v.sbits() - 1
+            val = (1 + frac / (2 ** sb)) * (2.0 ** e) if not v.isSubnormal() else (frac / (2 ** sb)) * 2.0 ** (e + 1)
+            return sign * val
+        except Exception:
+            pass
+    return 0.5
+
+
+def _replay_rake(amount: int, percentage: float, cap: Any, nfnd: bool) -> dict:
+    from math import inf
+    from pokerkit.utilities import rake
+
+    class _S:
+        board_cards = [[1]]
+    inputs = {'amount': amount, 'percentage': percentage, 'cap': cap, 'no_flop_no_drop': nfnd}
+    try:
+        r, u = rake(amount, _S() if nfnd else None, percentage=percentage, cap=inf if cap is None else cap,
+                    no_flop_no_drop=nfnd)
+    except ValueError as e:
+        return {'reproduced': 0 <= percentage <= 1, 'inputs': inputs, 'raised': str(e)}
+    bad = (r + u != amount) or r < 0 or u < 0 or (cap is not None and r > cap) or not (0 <= percentage <= 1)
+    return {'reproduced': bool(bad), 'inputs': inputs, 'parts': [r, u]}
 
 
 def smt_translator_validation() -> dict:
